@@ -204,6 +204,11 @@ FIXED_FACES = [
     # corner at a pole, the pole node stored with longitude 0 far away from the face's longitudes
     ("pole_corner", [174.0, 0.0, -53.0, -86.0, -119.0, -152.0], [-62.5, -90.0, -62.5, -62.5, -62.5, -62.5]),
     ("pole_corner", [127.0, -173.0, 0.0], [45.0, 45.0, 90.0]),
+    # corner at a pole with the other corners at clearly DIFFERENT latitudes (which of them precedes the pole matters)
+    ("pole_corner", [10.0, 40.0, 0.0], [-80.0, -65.0, -90.0]),
+    ("pole_corner", [10.0, 40.0, 0.0], [80.0, 65.0, 90.0]),
+    ("pole_corner", [-120.0, -95.0, -70.0, 0.0], [-75.0, -60.0, -70.0, -90.0]),
+    ("pole_corner", [-120.0, -95.0, -70.0, 0.0], [75.0, 60.0, 70.0, 90.0]),
     ("pole_corner", [100.0, 150.0, 125.0], [60.0, 60.0, 90.0]),
     # pole strictly inside
     ("pole_enclosed", [0.0, 90.0, 180.0, -90.0], [70.0, 75.0, 80.0, 75.0]),
@@ -268,6 +273,12 @@ def _scenario_faces(rng, n_per):
         if south:
             lo, lt = lo[::-1], lt[::-1]
         out.append(("pole_corner", lo, lt))
+        # 5b the same fan with the lower corners at different latitudes (non-convex ones are filtered out later)
+        lt2 = [sg * min(88.0, max(40.0, base + rng.uniform(-12, 12))) for _ in range(m)] + [sg * 90.0]
+        lo2 = lons + [lo[-1] if not south else lo[0]]
+        if south:
+            lo2, lt2 = lo2[::-1], lt2[::-1]
+        out.append(("pole_corner", lo2, lt2))
         # 6 pole enclosed: polygon around a centre close to the pole
         f = _gnomonic_face(rng, rng.uniform(-180, 180), sg * rng.uniform(80, 90), rng.uniform(12, 35), n)
         if f:
@@ -449,7 +460,19 @@ def bounds(tier, seed):
     faces = _scenario_faces(rng, n_per)
     # start-corner rotations and the clockwise traversal of the same polygons
     extra = []
-    for (sc, lo, lt) in faces:
+    n_fixed = len(FIXED_FACES)
+    for fi, (sc, lo, lt) in enumerate(faces):
+        if sc == "pole_corner" or fi < n_fixed:
+            # faces with a corner at a pole and the hand-made faces: EVERY start corner, both orientations (which corner precedes /
+            # follows the pole in the traversal decides the code path)
+            for k in range(len(lo)):
+                for rev in (False, True):
+                    a, b = lo[k:] + lo[:k], lt[k:] + lt[:k]
+                    if rev:
+                        a, b = a[::-1], b[::-1]
+                    if k or rev:
+                        extra.append((sc, a, b))
+            continue
         k = rng.randrange(len(lo))
         extra.append((sc, lo[k:] + lo[:k], lt[k:] + lt[:k]))
         if rng.random() < 0.5:
@@ -502,6 +525,6 @@ def bounds(tier, seed):
                 samples.append(desc)
     bound = (f"every admissible face of {len(meshes)} catalogue meshes (small, renumbered, closed, seeded random) and "
              f"{len(adm)} generated convex single faces with 3..8 corners (generic, bulging edges with unequal end latitudes, "
-             f"antimeridian, prime meridian, equator, corner at a pole, pole enclosed, high latitude; rotated start corner, some traversed clockwise), "
+             f"antimeridian, prime meridian, equator, corner at a pole, pole enclosed, high latitude; rotated start corner, some traversed clockwise; pole-corner and hand-made faces from every start corner in both orientations), "
              f"{N_SAMPLE} slerp samples per edge + analytic arc extremes; {skipped} faces outside the quantifier skipped; JIT on")
     return result(cases, len(keys), fails, bound, samples)
